@@ -56,7 +56,7 @@ InFlight(s, xw, c, d) ==
     FoldSet(LAMBDA tr, acc : acc + Owed(s, xw, c, tr), 0, {tr \in LiveTrs(s, c) : DenomOfTr(s, c, tr) = d})
 Custody(s, xw, c, d) ==
     LET toks == {t \in RangeOf(Cfg(s).tokens) : t.chain = c /\ t.denom = d}
-    IN FoldSet(LAMBDA t, acc : acc + ConvDec(t.dec, 18, xw[c].cust[t.ext]), 0, toks)
+    IN FoldSet(LAMBDA t, acc : acc + ConvDec(t.dec, 18, Get(xw[c].cust, t.ext, 0)), 0, toks)     \* (a token added by governance has no custody yet)
 Liabilities(s, xw, d) == s.sup[d] + FoldSet(LAMBDA c, acc : acc + InFlight(s, xw, c, d), 0, ExtChainsOf(Cfg(s)))
 Collateral(s, xw, d)  == FoldSet(LAMBDA c, acc : acc + Custody(s, xw, c, d), 0, ExtChainsOf(Cfg(s)))
 Solvent(s, xw) == \A d \in DOMAIN s.sup : Liabilities(s, xw, d) <= Collateral(s, xw, d)
